@@ -6,6 +6,8 @@ import (
 	"fmt"
 	"go/token"
 	"go/types"
+	"regexp"
+	"strings"
 
 	"golang.org/x/tools/go/ssa"
 )
@@ -220,6 +222,7 @@ func (x *Exec) absCell(st *State, obj int, idx Term) (int, bool) {
 	cp := *arr
 	cp.Cells = append(append([]AbsCell(nil), arr.Cells...), AbsCell{Idx: idx, Val: val})
 	st.heap[obj] = &cp
+	x.elemAssume(st, obj, len(cp.Cells)-1)
 	return len(cp.Cells) - 1, true
 }
 
@@ -735,4 +738,43 @@ func (x *Exec) chanSend(st *State, c VChan, v Value, pos token.Pos) {
 	cp := *co
 	cp.Sent = append(append([]Value(nil), co.Sent...), v)
 	st.heap[c.Obj] = &cp
+}
+
+// elemAssume applies the "elem <name-regexp> assume <expr>" directives of the
+// contract under verification to a freshly materialised element of a symbolic
+// input slice (element preconditions: what the producers of the slice establish).
+func (x *Exec) elemAssume(st *State, obj, cell int) {
+	if x.contract == nil || x.contract.Directives["elem"] == nil {
+		return
+	}
+	arr := st.heap[obj].(*VAbsArr)
+	if arr.Havocked || arr.ElemGen != nil {
+		return
+	}
+	for _, d := range x.contract.Directives["elem"] {
+		parts := strings.SplitN(d, " assume ", 2)
+		if len(parts) != 2 {
+			continue
+		}
+		re, err := regexp.Compile(strings.TrimSpace(parts[0]))
+		if err != nil || !re.MatchString(arr.Name) {
+			continue
+		}
+		v := x.force(st, arr.Cells[cell].Val)
+		// keep the forced value
+		cp := *st.heap[obj].(*VAbsArr)
+		cp.Cells = append([]AbsCell(nil), cp.Cells...)
+		cp.Cells[cell].Val = v
+		st.heap[obj] = &cp
+		env := &SpecEnv{x: x, st: st, vars: map[string]TV{"elem": {v, arr.Elem}}}
+		if x.fn.Pkg != nil {
+			env.pkg = x.fn.Pkg.Pkg
+		}
+		t, err := env.EvalBool(parts[1])
+		if err != nil {
+			x.unsupported(st, err.Error())
+			return
+		}
+		st.assume(t)
+	}
 }
